@@ -115,7 +115,7 @@ def run_case(spec):
     from . import c04
 
     viols, hist, nontrivial = [], {}, []
-    evals = 0
+    evals_box = [0]
     for e in shapes(spec["tier"])[spec["lo"] : spec["hi"]]:
         sid = name(e)
         rep = {"id": "replay:" + sid, "lo": spec["lo"], "hi": spec["hi"], "tier": spec["tier"]}
@@ -126,18 +126,44 @@ def run_case(spec):
         st, S = call_limited(lambda: c04.build(e), 120)
         if st != "ok":
             continue  # building the operand is C01's business
+        for phase in ("fresh", "again", "after move(3,-2)", "after rotate(0.5)"):
+          if phase == "after move(3,-2)" and rg.kind_of(S) not in ("EmptyShape", "WholeShape"):
+              S.move(3, -2)
+          elif phase == "after rotate(0.5)" and rg.kind_of(S) not in ("EmptyShape", "WholeShape"):
+              S.rotate(0.5)
+          elif phase != "fresh" and phase != "again":
+              continue
+          tagp = "" if phase == "fresh" else " [%s]" % phase
+
+          def fail(tag, msg, tagp=tagp):
+              viols.append({"case_id": "%s%s :: %s" % (sid, tagp, tag), "what": msg, "replay": rep})
+
+          ok = plot_once(S, e, fail, hist, pyplot, PathPatch, to_rgba, lib, evals_box, nontrivial, sid + tagp)
+          if not ok:
+              break
+    seen, out_ = set(), []
+    for v in viols:
+        if v["case_id"] not in seen:
+            seen.add(v["case_id"])
+            out_.append(v)
+    return {"violations": out_, "evals": evals_box[0], "nontrivial": nontrivial, "hist": hist, "sample": {"shape": name(shapes(spec["tier"])[spec["lo"]]), "phases": ["fresh", "again", "after move(3,-2)", "after rotate(0.5)"]}}
+
+
+def plot_once(S, e, fail, hist, pyplot, PathPatch, to_rgba, lib, evals_box, nontrivial, label):
+    """Plots S on a fresh Agg figure and compares every path with the current boundary."""
+    if True:
         before = rg.rep_sig(S, with_cache=False)
         fig = pyplot.figure()
         ax = fig.gca()
         face0 = ax.get_facecolor()
         plotter = lib.shapepy.ShapePloter(fig=fig, ax=ax) if hasattr(lib, "shapepy") else __import__("shapepy").ShapePloter(fig=fig, ax=ax)
         st, val = call_limited(lambda: plotter.plot(S), 120)
-        evals += 1
-        nontrivial.append(sid)
+        evals_box[0] += 1
+        nontrivial.append(label)
         if st != "ok":
             fail("noresult", "plot %s" % (exc_str(val) if st == "raise" else st))
             pyplot.close(fig)
-            continue
+            return False
         if rg.rep_sig(S, with_cache=False) != before:
             fail("modified", "plotting changed the shape")
         patches = [p for p in ax.patches if isinstance(p, PathPatch)]
@@ -147,14 +173,14 @@ def run_case(spec):
             if ax.patches or ax.collections or ax.lines:
                 fail("empty", "Empty drew %d artists" % (len(ax.patches) + len(ax.collections) + len(ax.lines)))
             pyplot.close(fig)
-            continue
+            return True
         if kind == "WholeShape":
             if ax.patches or ax.lines:
                 fail("whole", "Whole drew patches")
             if ax.get_facecolor() == face0:
                 fail("whole", "Whole did not colour the background")
             pyplot.close(fig)
-            continue
+            return True
         comps = list(S.subshapes) if kind == "DisjointShape" else [S]
         size = max(rg.jordan_curve(j).size() for j in S.jordans)
         tol = max(2e-6, float(size) * 1e-9)
@@ -205,12 +231,7 @@ def run_case(spec):
         if idx != len(patches):
             fail("extra", "%d path patches drawn, %d expected" % (len(patches), idx))
         pyplot.close(fig)
-    seen, out_ = set(), []
-    for v in viols:
-        if v["case_id"] not in seen:
-            seen.add(v["case_id"])
-            out_.append(v)
-    return {"violations": out_, "evals": evals, "nontrivial": nontrivial, "hist": hist, "sample": {"shape": name(shapes(spec["tier"])[spec["lo"]])}}
+        return True
 
 
 def finalize(results, cov):
